@@ -12,7 +12,7 @@ def sh(cmd, **kw):
     return subprocess.run(cmd, shell=True, stdout=subprocess.PIPE, stderr=subprocess.STDOUT, text=True, **kw)
 def main():
     a = sys.argv[1:]
-    d = os.path.abspath(a[0]); props = []; tier = 'quick'; verify = False; demo = False; demoflags = '-std=c++17 -O1 -g'
+    d = os.path.abspath(a[0]); props = []; tier = 'quick'; verify = False; demo = False; demoflags = '-std=c++17 -O1 -g'; democc = 'g++'
     i = 1
     while i < len(a):
         if a[i] == '--props': props = a[i+1].split(','); i += 2
@@ -20,6 +20,7 @@ def main():
         elif a[i] == '--verify': verify = True; i += 1
         elif a[i] == '--demo': demo = True; i += 1
         elif a[i] == '--demoflags': demoflags = a[i+1]; i += 2
+        elif a[i] == '--democc': democc = a[i+1]; i += 2
         else: raise SystemExit('bad arg ' + a[i])
     tag = hashlib.md5(d.encode()).hexdigest()[:8]
     wt = '/tmp/seedwt_' + tag
@@ -27,9 +28,10 @@ def main():
     r = sh('git -C /repo worktree add -q --detach %s HEAD' % wt)
     if r.returncode: print(r.stdout); return 2
     try:
-        r = sh('git -C %s apply --whitespace=nowarn %s' % (wt, os.path.join(d, 'patch.diff')))
+        pf = os.path.join(d, 'patch.rebased.diff') if os.path.exists(os.path.join(d, 'patch.rebased.diff')) else os.path.join(d, 'patch.diff')  # a seed written against an older HEAD, rebased by hand
+        r = sh('git -C %s apply --whitespace=nowarn %s' % (wt, pf))
         if r.returncode:
-            r = sh('cd %s && patch -p1 < %s' % (wt, os.path.join(d, 'patch.diff')))
+            r = sh('cd %s && patch -p1 < %s' % (wt, pf))
             if r.returncode: print('PATCH DOES NOT APPLY:', r.stdout[-2000:]); return 2
         if verify:
             r = sh('cd %s && cmake -S tests -B _b -G Ninja -DCMAKE_BUILD_TYPE=RelWithDebInfo >/dev/null && cmake --build _b --target unittest -j16 2>&1 | tail -3 && _b/unittest/unittest | tail -3' % wt)
@@ -40,7 +42,7 @@ def main():
             res = {}
             for label, inc in (('with-change', os.path.join(wt, 'include')), ('without-change', '/repo/include')):
                 exe = '/tmp/seeddemo_%s_%s' % (tag, label)
-                r = sh('g++ %s -I%s %s -o %s -pthread 2>&1 | tail -5' % (demoflags, inc, os.path.join(d, 'demo.cpp'), exe))
+                r = sh('%s %s -I%s %s -o %s -pthread 2>&1 | tail -5' % (democc, demoflags, inc, os.path.join(d, 'demo.cpp'), exe))
                 if not os.path.exists(exe):
                     res[label] = 'COMPILE-FAILED ' + r.stdout[-300:]
                     continue
